@@ -14,7 +14,6 @@ Inductive prog (A : Type) : Type := Ret (a : A) | Do (c : call) (k : answer c ->
 Arguments Ret {A}. Arguments Do {A}.
 Fixpoint bind {A B} (p : prog A) (f : A -> prog B) : prog B :=
   match p with Ret a => f a | Do c k => Do c (fun r => bind (k r) f) end.
-Notation "x <- p ;; q" := (bind p (fun x => q)) (at level 61, p at next level, right associativity).
 
 (* window as a bit-indexed trie; unset cells read as [junk] *)
 Inductive wtree := Emp | Lf (b : byte) | Nd (l r : wtree).
@@ -31,6 +30,9 @@ Fixpoint wset (d : nat) (t : wtree) (i : N) (b : byte) : wtree :=
   | S d' => let '(l, r) := match t with Nd l r => (l, r) | _ => (Emp, Emp) end in
             if N.odd i then Nd l (wset d' r (N.div2 i) b) else Nd (wset d' l (N.div2 i) b) r
   end.
+
+(* memset(window, v, 2^d): every cell set *)
+Fixpoint full_tree (d : nat) (v : byte) : wtree := match d with O => Lf v | S d' => Nd (full_tree d' v) (full_tree d' v) end.
 
 (* status codes *)
 Definition OK : N := 0. Definition ERR_READ : N := 3. Definition ERR_WRITE : N := 4.
